@@ -75,6 +75,11 @@ def _step(kind, path, mutating, extra=None):
     if S.trace is not None:
         S.trace.append((k, kind, _rel(path), True, extra))
     if S.crash_at is not None and k == S.crash_at and not (kind == "write" and S.torn is not None):
+        if S.mode == "interrupt":
+            # the process is interrupted here (Ctrl-C / a signal handler raising): the exception unwinds the
+            # stack, context managers and finally clauses run, then the process ends
+            S.crash_at = None
+            raise KeyboardInterrupt("injected at fs step %d" % k)
         os._exit(137)
     if S.faults and k in S.faults:
         return S.faults[k]
@@ -114,6 +119,9 @@ class ShimFile:
             i = max(0, min(len(data), S.torn if S.torn >= 0 else len(data) + S.torn))
             if i:
                 self._raw.write(data[:i])
+            if S.mode == "interrupt":
+                S.crash_at = None
+                raise KeyboardInterrupt("injected inside write step %d" % k)
             os._exit(137)
         if e is not None:
             raise OSError(e, os.strerror(e), self._path)
